@@ -313,7 +313,19 @@ def run(p, led, tier):
                 continue
             if caller is not met:
                 continue        # inside a routing helper: the guard is judged at the call that enters the helper from metabolize
-            okg = guard_established(res, met, cfgm, cfgm.node_of(call), _length_fact, led)
+            def site_ok(caller_, call_, callee_, depth=0):
+                cfgc = cfgm if caller_ is met else cfg_of(caller_, led)
+                okg_ = guard_established(res, caller_, cfgc, cfgc.node_of(call_), _length_fact, led)
+                if okg_:
+                    return okg_
+                if callee_.key in dkeys and depth < 3:
+                    # the guard may sit inside the routing helper (an entry point that wraps the old body): every pathway /
+                    # routing call the helper makes must then be guarded in the helper itself
+                    inner = [(c2, g2) for g2 in pathway_fns + dispatchers for (cl, c2) in res.callers_of(g2) if cl is callee_]
+                    if inner and all(site_ok(callee_, c2, g2, depth + 1) for c2, g2 in inner):
+                        return f"the length guard inside {callee_.qual}, which dominates every pathway call it makes"
+                return None
+            okg = site_ok(met, call, pf)
             if okg:
                 led.ok("C01-R7", key, where(caller, call), f"dominated by {okg}")
             else:
